@@ -10,6 +10,20 @@ typedef ikos::z_number znum;
 typedef ikos::interval<znum> itv_t;
 typedef ikos::bound<znum> bnd_t;
 
+inline std::vector<std::string> split_csv(const std::string &s, char c = ',') {
+  std::vector<std::string> r;
+  std::string cur;
+  if (s.empty()) return r;
+  for (char ch : s) {
+    if (ch == c) {
+      r.push_back(cur);
+      cur.clear();
+    } else
+      cur += ch;
+  }
+  r.push_back(cur);
+  return r;
+}
 // x ∈ γ(i), written from the public observers of interval
 inline form mem(const itv_t &i, const term &x) {
   if (B(i.is_bottom())) return form(false);
